@@ -75,7 +75,12 @@ func runC14(cases string, res *Result) {
 			pad = padComment(n)
 			want = ""
 		}
-		srcMark := assemble(pieces, at, c14Mark, reps)
+		mark := c14Mark
+		if kind == "text" && n == 0 {
+			// no padding at all: the marker itself would stand between a dashed delimiter and the whitespace it trims
+			mark, want = "", ""
+		}
+		srcMark := assemble(pieces, at, mark, reps)
 		srcPad := assemble(pieces, at, pad, reps)
 		base := assemble(pieces, at, "", reps)
 		cross := (len(base) <= 4096) != (len(srcPad) <= 4096)
@@ -95,7 +100,7 @@ func runC14(cases string, res *Result) {
 			res.add(Finding{Kind: "disagreement", Where: "render", Case: small, Detail: "base template with marker does not render: " + eMark.Error()})
 		} else if ePad != nil {
 			res.add(Finding{Kind: "oracle", Where: "render", Case: small, Detail: fmt.Sprintf("padded template (total %d bytes) fails: %v", len(srcPad), ePad)})
-		} else if exp := strings.ReplaceAll(oMark, c14Mark, want); oPad != exp {
+		} else if exp := c14Replace(oMark, mark, want); oPad != exp {
 			res.add(Finding{Kind: "oracle", Where: "render", Case: small, Expected: clip(exp), Observed: clip(oPad),
 				Detail: fmt.Sprintf("inserting %d bytes of %s padding changed the output by more than that padding (lengths: expected %d, got %d)", n, kind, len(exp), len(oPad))})
 		}
@@ -134,4 +139,11 @@ func clip(s string) string {
 		return s[:200] + fmt.Sprintf("...(%d bytes)...", len(s)) + s[len(s)-150:]
 	}
 	return s
+}
+
+func c14Replace(s, mark, with string) string {
+	if mark == "" {
+		return s
+	}
+	return strings.ReplaceAll(s, mark, with)
 }
